@@ -182,7 +182,7 @@ func TestVerifC55Arch(t *testing.T) {
 	rec := kit.Start(t, "C55", "archfs")
 	defer rec.Finish()
 	env := rec.Env
-	n := env.Pick(120, 1600)
+	n := env.Pick(120, 800)
 	for i := 0; i < n; i++ {
 		if !env.Mine(i) {
 			continue
